@@ -181,6 +181,7 @@ def handle (st : DState) : List String → P (DState × String)
     match Tr31.Header.mk' (← decStr a) (← decStr b) (← decStr c') (← decStr d) (← decStr e) (← decStr f) with
     | .ok h => pure (st, "ok\t" ++ encHeader h)
     | .error e => pure (st, "err\t" ++ encErr e)
+  | ["header.str", h] => do pure (st, replyS (← decHeader h).str)
   -- live object
   | ["hist.new", k, h] => do
     match Tr31.KB.init (← decBytes k) (← decHeaderArg h) with
@@ -234,6 +235,11 @@ def handle (st : DState) : List String → P (DState × String)
   | ["spec.wellformed", fmt, blk, pin] => do
     let f ← decNat fmt
     pure (st, replyBool (Spec.wellFormed f (nibFill f) (Spec.bytesToNibs (← decBytes blk)) (← decStr pin)))
+  | ["spec.decode", fmt, blk] => do
+    let f ← decNat fmt
+    match Spec.specDecode f (nibFill f) (Spec.bytesToNibs (← decBytes blk)) with
+    | some pin => pure (st, replyS (.ok pin))
+    | none => pure (st, "err\tvalue")
   | ["cipher", "tdes_e", k, b] => do pure (st, replyB (.ok (c.tdesE (← decBytes k) (← decBytes b))))
   | ["cipher", "tdes_d", k, b] => do pure (st, replyB (.ok (c.tdesD (← decBytes k) (← decBytes b))))
   | ["cipher", "aes_e", k, b] => do pure (st, replyB (.ok (c.aesE (← decBytes k) (← decBytes b))))
